@@ -51,7 +51,7 @@ Definition spec_trace (rc : bool) (ms : list cmode) : list op :=
   end.
 
 (* ---- data side ---- *)
-Definition rows_of (f : cfield) : nat := match f with CVec l => length l | CMat r => length r end.
+Definition rows_of (f : cfield) : nat := match f with CVec _ l => length l | CMat _ _ r => length r end.
 
 (* n items per sample, B samples *)
 Definition items_shape (n B : nat) (l : list (list field)) : Prop :=
@@ -94,14 +94,23 @@ Definition sample_items (b : batch) : list (list field) :=
   match b with BRaw l => map fst l | BItems l => l | _ => [] end.
 
 (* ---- padding ---- *)
-(* one padded field: sequences are the original content followed by zeros up to the
-   longest sequence of the batch; anything else is what default collation gives *)
+(* every step of every row is a block of prod(trailing) numbers *)
+Definition well_shaped (tr : list nat) (rows : list (list elem)) : Prop :=
+  forall r e, In r rows -> In e r -> length e = numel tr.
+
+(* one padded field: a column of sequences (tensors of shape (L_i, *tr), dtype d) becomes a
+   tensor of the same dtype and trailing shape whose row i is the original steps of
+   sample i followed by all-zero steps up to M = the largest number of STEPS in the batch
+   (attained by some sample; nothing is padded beyond it); anything else is what default
+   collation gives *)
 Definition padded_field (col : list field) (out : cfield) : Prop :=
   match col with
-  | FSeq _ :: _ =>
-      exists rows M, map_opt get_seq col = Some rows
+  | FSeq d tr _ :: _ =>
+      exists rows M, map_opt (get_seq d tr) col = Some rows
         /\ (forall r, In r rows -> (length r <= M)%nat) /\ (exists r, In r rows /\ length r = M)
-        /\ out = CMat (map (fun r => r ++ repeat 0 (M - length r)) rows)
-        /\ (forall p, In p (map (fun r => r ++ repeat 0 (M - length r)) rows) -> length p = M)
+        /\ out = CMat d tr (map (fun r => r ++ repeat (repeat 0 (numel tr)) (M - length r)) rows)
+        /\ (forall p, In p (map (fun r => r ++ repeat (repeat 0 (numel tr)) (M - length r)) rows) -> length p = M)
+        /\ (well_shaped tr rows ->
+            well_shaped tr (map (fun r => r ++ repeat (repeat 0 (numel tr)) (M - length r)) rows))
   | _ => collate_col col = Some out
   end.
